@@ -68,3 +68,33 @@ Proof.
   intros H0 HQ Hf. split; [|lia]. cbn. rewrite (Hf 0 ltac:(lia)).
   assert (E : (Q - 1 <=? q 0) = true) by (apply N.leb_le; lia). rewrite E. reflexivity.
 Qed.
+
+(* general form: any target between the first and the last record is found, at the first index carrying it *)
+Theorem search_first (q : N -> N) (n T : N) :
+  1 <= n -> (forall i, i + 1 < n -> q i <= q (i + 1) <= q i + 1) -> q 0 <= T -> T <= q (n - 1) ->
+  forall f, (forall i, i < n -> f i = Ok (T <=? q i)) ->
+  exists m, bsearch (S (N.to_nat n)) f 0 n = Ok m /\ m < n /\ q m = T /\ forall k, k < m -> q k < T.
+Proof.
+  intros Hn Hstep H0 Hlast f Hf.
+  assert (Hmono : forall a b, a <= b -> b < n -> q a <= q b).
+  { intros a b Hab Hb. remember (N.to_nat (b - a)) as d eqn:Ed. revert a b Hab Hb Ed.
+    induction d as [|d IHd]; intros a b Hab Hb Ed.
+    - assert (a = b) by lia. subst. lia.
+    - specialize (IHd a (b - 1) ltac:(lia) ltac:(lia) ltac:(lia)).
+      pose proof (Hstep (b - 1) ltac:(lia)) as Hs. replace (b - 1 + 1) with b in Hs by lia. lia. }
+  destruct (bsearch_spec (fun i => T <=? q i) f n Hf (S (N.to_nat n)) 0 n) as [m [Hm [_ [Hmn [Hlow Hhigh]]]]];
+    try lia.
+  - intros a b Hab Hb Ha. apply N.leb_le in Ha. apply N.leb_le. specialize (Hmono a b Hab Hb). lia.
+  - exists m. split; [exact Hm|].
+    assert (Hlt : m < n).
+    { destruct (N.lt_ge_cases m n) as [H|H]; [exact H|]. assert (m = n) by lia. subst m.
+      assert (Hf2 := Hlow (n - 1) ltac:(lia)). cbn beta in Hf2. apply N.leb_gt in Hf2. lia. }
+    split; [exact Hlt|].
+    assert (Hge := Hhigh Hlt). cbn beta in Hge. apply N.leb_le in Hge.
+    assert (Hbelow : forall k, k < m -> q k < T).
+    { intros k Hk. assert (Hf2 := Hlow k Hk). cbn beta in Hf2. apply N.leb_gt in Hf2. exact Hf2. }
+    split; [|exact Hbelow].
+    destruct (N.eq_dec m 0) as [->|Hm0]; [lia|].
+    pose proof (Hbelow (m - 1) ltac:(lia)) as Hb1. pose proof (Hstep (m - 1) ltac:(lia)) as Hs.
+    replace (m - 1 + 1) with m in Hs by lia. lia.
+Qed.
